@@ -161,8 +161,10 @@ def run(ctx, prop):
         B = 4000
         for b0 in range(0, len(uniq), B):
             _, ub, _ = run_pipeline(ctx, uniq[b0:b0 + B], 0, "shrink%d" % (b0 // B))
+            nb = len(uniq[b0:b0 + B])
             for j, r in ub.items():
-                ubad[b0 + j - 1] = r          # line 0 of every batch is the vdict line
+                if 1 <= j <= nb:              # line 0 of every batch is the vdict line; lines after the units are
+                    ubad[b0 + j - 1] = r      # the driver's own dictionary-derived messages, not units
         for (u, (i, rs)) in zip(units, owner):
             j = seen[json.dumps(u, sort_keys=True)]
             ur = [r for r in ubad.get(j, []) if r in rs]
